@@ -53,15 +53,51 @@ def predicate(tr, rep):
     for arr in (opt._population_g_i, opt._population_ph_i):
         if isinstance(arr, np.ndarray) and arr.dtype != object:
             arr[...] = 0 if arr.dtype.kind in "iub" else -12345.5
-    opt._fitness_i[...] = -(1 << 62) if opt._fitness_i.dtype.kind in "iu" else -1e300
+    opt._fitness_i[...] = (0 if opt._fitness_i.dtype.kind == "u" else -(1 << 62)) if opt._fitness_i.dtype.kind in "iu" else -1e300
     after = opt._thefittest.get()
     if not all(L.same(before[k], after[k]) for k in before):
         rep.problem("private", "overwriting the population in place changed the reported triple", dict(cfg=cfg),
                     "record-aliases-population", True, None, None, "C01_fittest_private")
 
 
+def infinite_optimum(ctx, rep):
+    """objectives that are infinite in the good direction at their optimum (log of an error that can be exactly 0): the record is the maximum
+    over every evaluated individual — +inf (sign-normalised) once the optimum was evaluated (implementation against the statement only:
+    the exact loop model has finite values)"""
+    import thefittest.optimizers as O
+    plans = [("GeneticAlgorithm", dict(str_len=6, selection="tournament_3")), ("SHAGA", dict(str_len=6)), ("SelfCGA", dict(str_len=6)),
+             ("GeneticAlgorithm", dict(str_len=6, selection="rank", elitism=False))]
+    for kind, kw in plans[: ctx.pick(4, 4)]:
+        for mini in (True, False):
+            seed, pop = ctx.rng.randrange(1 << 30), ctx.rng.choice([8, 10])
+            seen = []
+
+            def f(X, mini=mini, seen=seen):
+                with np.errstate(all="ignore"):
+                    v = np.log((np.asarray(X) == 0).sum(axis=1).astype(np.float64))     # -inf on the all-ones string
+                v = v if mini else -v
+                seen.extend(float(t) for t in v)
+                return v
+            rng_np = np.random.RandomState(seed % (1 << 31))
+            init = rng_np.randint(0, 2, size=(pop, 6)).astype(np.byte)
+            init[pop // 2] = 1                                                   # the optimum is in the initial population
+            reports = []
+            opt = getattr(O, kind)(f, iters=4, pop_size=pop, minimization=mini, init_population=init, random_state=seed,
+                                   on_generation=lambda o: reports.append(float(o.get_fittest()["fitness"])), **kw)
+            opt.fit()
+            rep.traces += 1
+            rep.count("infinite-optimum", (kind, seed, mini))
+            best = max((-t if mini else t) for t in seen)
+            got = float(opt.get_fittest()["fitness"])
+            if got != best or any(r != float("inf") for r in reports):
+                rep.problem("best", f"{kind}: the objective is infinite (in the good direction) at an evaluated individual, the reported fitness is {got} "
+                            f"(at the generation boundaries: {reports[:4]})", dict(kind=kind, seed=seed, minimization=mini, pop_size=pop, objective="log(#zeros)"),
+                            "record-not-max", True, got, best, "C01_record_is_max")
+
+
 def run(ctx, rep):
     _loop.run_all(ctx, rep, "C01", predicate, 30, 300)
+    infinite_optimum(ctx, rep)
 
 
 def replay(ctx, rp):
